@@ -38,6 +38,7 @@ PARTIAL = ("FLAE, QUEST, Davenport, OLEQ, AQUA and itzhack (eig / RNG / unbounde
 Q = ['w', 'x', 'y', 'z']
 P = ['a', 'b', 'c', 'd']
 ANG = ['a0', 'a1', 'a2']
+ANG2 = ['b0', 'b1', 'b2']
 M = [f'r{i}{j}' for i in range(3) for j in range(3)]
 M2 = [f's{i}{j}' for i in range(3) for j in range(3)]
 AC = ['ax', 'ay', 'az']
@@ -108,6 +109,17 @@ def _pairs():
         domain='dcm2', trace=False)
     add('angular_distance', [M, M2], lambda A, R, S: _Mx(A).angular_distance(R, S), lambda A, R, S: _Mx(A).angular_distance(R, S),
         domain='dcm2', trace=False, tol=(64, 1e-9))
+    # ---- every other function with an `.ndim` switch (found by introspection, see twin_coverage)
+    add('euclidean', [ANG, ANG2], lambda A, x, y: _Mx(A).euclidean(x, y), lambda A, x, y: _Mx(A).euclidean(x, y), domain='ang2', two=True)
+    add('rmse', [ANG, ANG2], lambda A, x, y: _Mx(A).rmse(x, y), lambda A, x, y: _Mx(A).rmse(x, y), domain='ang2')
+    add('rmse_matrices', [M, M2], lambda A, R, S: _Mx(A).rmse_matrices(R, S), lambda A, R, S: _Mx(A).rmse_matrices(R, S), domain='dcm2',
+        trace=False)
+    add('q_conj', [Q], lambda A, q: _O(A).q_conj(q), lambda A, q: _O(A).q_conj(q), trace=False)
+    add('q_norm', [Q], lambda A, q: _O(A).q_norm(q), lambda A, q: _O(A).q_norm(q), trace=False)
+    add('am2angles', [AC, MG], lambda A, a, m: _O(A).am2angles(a, m)[0], lambda A, a, m: _O(A).am2angles(a, m), domain='am', trace=False,
+        doc='1-D operands are promoted to one row: the scalar result is row 0 of a 1-by-3 array')
+    add('complementary_am', [AC, MG], lambda A, a, m: A.filters.Complementary().am_estimation(a, m),
+        lambda A, a, m: A.filters.Complementary().am_estimation(a, m), domain='am', trace=False)
     # ---- Tilt and SAAM: vectorised copy vs estimate()
     for rep in ('quaternion', 'angles', 'rotmat'):
         add(f'tilt_{rep}', [AC, MG], (lambda A, a, m, rep=rep: A.filters.Tilt(acc=a, mag=m, representation=rep).Q),
@@ -333,6 +345,8 @@ def region_of(p, row):
         return 'close' if dist < 2e-5 else 'generic'
     if d == 'angles':
         return 'out-of-range' if max(abs(x) for x in row) > 2 * math.pi else 'generic'
+    if d == 'ang2':
+        return 'wrap' if max(abs(a - b) for a, b in zip(row[:3], row[3:])) > math.pi else 'generic'
     if d == 'dcm':
         return _region_of_dcm(row)
     if d == 'dcm2':
@@ -366,6 +380,15 @@ def rows_for(p, rng, n):
         return out
     if d == 'angles':
         return _angle_rows(rng, n)
+    if d == 'ang2':
+        # pairs of angle triplets incl. wrap-arounds: components near +-pi on opposite sides, differences > pi, = pi, = 2pi
+        out = [('wrap', [0.1, -0.2, 3.13, 0.1, -0.2, -3.12]), ('wrap', [3.0, -3.0, 0.0, -3.0, 3.0, 0.0]),
+               ('wrap', [math.pi, 0.0, 0.0, -math.pi, 0.0, 0.0]), ('generic', [math.pi, 0.0, 0.0, 0.0, 0.0, 0.0]),
+               ('wrap', [2.5, 1.0, -2.0, -2.5, 1.0, 2.0]), ('generic', [0.0, 0.0, 0.0, 0.0, 0.0, 0.0]), ('generic', [0.3, 0.2, 0.1, 0.1, 0.2, 0.3])]
+        while len(out) < n:
+            x, y = rng.uniform(-math.pi, math.pi, 3), rng.uniform(-math.pi, math.pi, 3)
+            out.append(('generic', [*x, *y]))
+        return out
     if d == 'dcm':
         return [(r, list(R)) for r, R in _dcm_rows(rng, n)]
     if d == 'dcm2':
@@ -394,7 +417,11 @@ def _close_pairs(rng):
 # correspondence: regenerated float copies vs the public entry points
 # ------------------------------------------------------------------------------------------
 def correspondence(ctx):
+    """cases are drawn sequentially (one seeded stream); the per-target model evaluations (one coqc each) run 4 at a time"""
+    from concurrent.futures import ThreadPoolExecutor
     n = ctx.n(24, 200)
+    jobs = []
+    corr = lambda *a, **k: jobs.append((a, k))
     for p in PAIRS:
         if not p.trace:
             continue
@@ -408,16 +435,18 @@ def correspondence(ctx):
                            ('not-SO3', [1, 0.1, 0, 0, 1, 0, 0, 0, 1.0])]
         cases = [cm.d(p.inputs, r) for _, r in rows]
         ulp, at = p.tol
-        ctx.correspond(f'C07_{p.name}_s', cases, (lambda c, p=p: impl_single(p, _case_row(p, c))), tol_ulp=ulp, abs_tol=at)
-        ctx.correspond(f'C07_{p.name}_b1', cases, (lambda c, p=p: impl_batch(p, [_case_row(p, c)])[0]), tol_ulp=ulp, abs_tol=at)
+        corr(f'C07_{p.name}_s', cases, (lambda c, p=p: impl_single(p, _case_row(p, c))), tol_ulp=ulp, abs_tol=at)
+        corr(f'C07_{p.name}_b1', cases, (lambda c, p=p: impl_batch(p, [_case_row(p, c)])[0]), tol_ulp=ulp, abs_tol=at)
         if p.two:
             names2 = [OTHER(x) for x in p.inputs]
             cases2 = []
             for i, (_, r) in enumerate(rows):
                 o = rows[(7 * i + 2) % len(rows)][1]
                 cases2.append({**cm.d(names2, o), **cm.d(p.inputs, r)})
-            ctx.correspond(f'C07_{p.name}_b2', cases2,
-                           (lambda c, p=p: impl_batch(p, [_case_row(p, c, other=True), _case_row(p, c)])[1]), tol_ulp=ulp, abs_tol=at)
+            corr(f'C07_{p.name}_b2', cases2,
+                 (lambda c, p=p: impl_batch(p, [_case_row(p, c, other=True), _case_row(p, c)])[1]), tol_ulp=ulp, abs_tol=at)
+    with ThreadPoolExecutor(max_workers=4) as ex:
+        list(ex.map(lambda j: ctx.correspond(*j[0], **j[1]), jobs))
 
 
 # ------------------------------------------------------------------------------------------
@@ -472,7 +501,7 @@ def o_twin(inp):
             return r
         return _twin(inp, form)
     pre = {}
-    r = _shared(inp, pre) if len(inp['rows']) <= 5 else None               # call sequences on ONE caller-owned array (row views), both orders, each side twice
+    r = _shared(inp, pre) if len(inp['rows']) <= 3 else None               # call sequences on ONE caller-owned array (row views), both orders, each side twice
     if r is not None:
         return r
     return _twin(inp, form, pre or None)
@@ -645,19 +674,148 @@ def _integer_batches(p):
     return [[rows[0]], rows[1:4], rows[0:4]]
 
 
-ORACLES = {'twin': o_twin, 'options': o_options}
+# ------------------------------------------------------------------------------------------
+# coverage by introspection: every function of the anchored modules that branches on `.ndim`
+# ------------------------------------------------------------------------------------------
+COVERED = {   # (module, function) -> twin pair(s) of the table
+    ('utils/metrics.py', 'euclidean'): ['euclidean'], ('utils/metrics.py', 'chordal'): ['chordal'], ('utils/metrics.py', 'qdist'): ['qdist'],
+    ('utils/metrics.py', 'qeip'): ['qeip'], ('utils/metrics.py', 'qcip'): ['qcip'], ('utils/metrics.py', 'qad'): ['qad'],
+    ('utils/metrics.py', 'rmse'): ['rmse'], ('utils/metrics.py', 'rmse_matrices'): ['rmse_matrices'],
+    ('common/orientation.py', 'q_conj'): ['q_conj'], ('common/orientation.py', 'q_norm'): ['q_norm'], ('common/orientation.py', 'q2R'): ['q2R_v1', 'q2R_v2'],
+    ('common/orientation.py', 'rpy2q'): ['rpy2q'], ('common/orientation.py', 'am2angles'): ['am2angles'],
+    ('common/orientation.py', 'chiaverini'): ['chiaverini', 'dcm_chiaverini'], ('common/orientation.py', 'hughes'): ['hughes', 'dcm_hughes'],
+    ('common/quaternion.py', '__new__'): ['to_DCM', 'conj', 'to_angles'], ('common/quaternion.py', 'from_rpy'): ['from_rpy', 'from_angles'],
+    ('filters/aqua.py', '_compute_all'): ['aqua_NED', 'aqua_ENU'], ('filters/davenport.py', '_compute_all'): ['davenport'],
+    ('filters/famc.py', '_compute_all'): ['famc'], ('filters/flae.py', '_compute_all'): ['flae_symbolic', 'flae_eig', 'flae_newton'],
+    ('filters/fqa.py', '_compute_all'): ['fqa'], ('filters/quest.py', '_compute_all'): ['quest'], ('filters/saam.py', '_compute_all'): ['saam', 'saam_rotmat'],
+    ('filters/tilt.py', '_compute_all'): ['tilt_quaternion', 'tilt_angles', 'tilt_rotmat', 'tilt_nomag'],
+    ('filters/triad.py', '_compute_all'): ['triad_rotmat_NED', 'triad_rotmat_ENU', 'triad_quaternion_NED', 'triad_quaternion_ENU'],
+    ('filters/complementary.py', 'am_estimation'): ['complementary_am'],
+}
+EXEMPT = {    # `.ndim` is used for validation only, or the function belongs to another property
+    ('common/orientation.py', 'q_correct'): 'N-by-4 only (ndim is a shape check)', ('common/orientation.py', 'itzhack'): 'ndim is a shape check; from_DCM twins dcm_itzhack*',
+    ('common/quaternion.py', 'ode'): 'shape check', ('common/quaternion.py', 'average'): 'weights shape check',
+    ('common/dcm.py', '_assert_SO3'): 'validation', ('common/dcm.py', 'from_quaternion'): 'covered by C01 (DCM_fromq / DCM_fromq_batch)',
+    ('common/frames.py', '_ltp_transformation'): 'property C17', ('utils/core.py', 'get_nan_intervals'): 'property C12', ('utils/sensors.py', '__gaussian_filter'): 'property C20',
+    ('filters/angular.py', '_compute_all'): 'recursive filter (C06)', ('filters/complementary.py', '_compute_all'): 'recursive filter (C06)',
+    ('filters/complementary.py', '_assert_validity_of_inputs'): 'validation', ('filters/aqua.py', '_assert_triaxial_sample_vector'): 'validation',
+    ('filters/ekf.py', '_set_measurement_noise_covariance'): 'validation', ('filters/ekf.py', '_set_reference_frames'): 'validation',
+    ('filters/ekf.py', '_assert_validity_of_inputs'): 'validation', ('filters/mahony.py', '_assert_validity_of_inputs'): 'validation',
+    ('filters/triad.py', '_guard_clauses_vectors'): 'validation',
+}
+
+
+def twin_coverage():
+    """functions of the package whose body has an `if` on `.ndim` -> covered / exempt / NOT COVERED"""
+    import ast, glob, os
+    root = os.path.join(os.environ.get('AHRS_REPO', '/repo'), 'ahrs')
+    found = []
+    for f in sorted(glob.glob(os.path.join(root, '**', '*.py'), recursive=True)):
+        rel = os.path.relpath(f, root).replace(os.sep, '/')
+        try:
+            tree = ast.parse(open(f, encoding='utf-8').read())
+        except SyntaxError:
+            continue
+        for node in ast.walk(tree):
+            if isinstance(node, ast.FunctionDef):
+                if any(isinstance(n, ast.If) and any(isinstance(a, ast.Attribute) and a.attr == 'ndim' for a in ast.walk(n.test))
+                       for n in ast.walk(node)):
+                    found.append((rel, node.name))
+    found = sorted(set(found))
+    missing = [k for k in found if k not in COVERED and k not in EXEMPT]
+    stale = [k for k in COVERED if k not in found]
+    badpairs = [(k, q) for k, v in COVERED.items() for q in v if q not in BYNAME]
+    return {'functions_with_ndim_switch': len(found), 'covered': len([k for k in found if k in COVERED]),
+            'exempt': {f'{a}:{b}': EXEMPT[(a, b)] for (a, b) in found if (a, b) in EXEMPT},
+            'NOT_COVERED': [f'{a}:{b}' for a, b in missing], 'table_entries_without_function': [f'{a}:{b}' for a, b in stale],
+            'unknown_pairs': [f'{k}->{q}' for k, q in badpairs]}
+
+
+# ------------------------------------------------------------------------------------------
+# option VALUE spellings: a spelling the scalar path accepts must mean the same on the array path
+# ------------------------------------------------------------------------------------------
+def _spell_twins():
+    """name -> (domain, canonical values, factory(value) -> (scalar call, array call))"""
+    def dcm(v, **kw):
+        return (lambda A, R: _arr(A.Quaternion(dcm=R, method=v, **kw))), (lambda A, R: _arr(A.QuaternionArray(DCM=R, method=v, **kw)))
+    T = {
+        'from_DCM.method': ('dcm', ['shepperd', 'chiaverini', 'hughes', 'sarabandi', 'itzhack'], dcm),
+        'from_DCM.method+version1': ('dcm', ['itzhack'], lambda v: dcm(v, version=1)),
+        'from_DCM.method+version2': ('dcm', ['itzhack'], lambda v: dcm(v, version=2)),
+        'Quaternion.order': ('quat', ['H', 'S'], lambda v: ((lambda A, q: A.Quaternion(q, order=v).to_DCM()),
+                                                         (lambda A, q: A.QuaternionArray(q, order=v).to_DCM()))),
+        'Tilt.representation': ('am', ['quaternion', 'angles', 'rotmat'],
+                                lambda v: ((lambda A, a, m: A.filters.Tilt(acc=a, mag=m, representation=v).Q),) * 2),
+        'SAAM.representation': ('am', ['quaternion', 'rotmat'],
+                                lambda v: ((lambda A, a, m: (lambda o: getattr(o, 'A', o.Q))(A.filters.SAAM(acc=a, mag=m, representation=v))),) * 2),
+        'TRIAD.representation': ('am', ['rotmat', 'quaternion'], lambda v: ((lambda A, a, m: A.filters.TRIAD(w1=a, w2=m, representation=v).A),) * 2),
+        'TRIAD.frame': ('am', ['NED', 'ENU'], lambda v: ((lambda A, a, m: A.filters.TRIAD(w1=a, w2=m, frame=v).A),) * 2),
+        'OLEQ.frame': ('am', ['NED', 'ENU'], lambda v: ((lambda A, a, m: A.filters.OLEQ(acc=a, mag=m, frame=v).Q),) * 2),
+        'AQUA.frame': ('am', ['NED', 'ENU'], lambda v: ((lambda A, a, m: A.filters.AQUA(acc=a, mag=m, frame=v).Q),) * 2),
+        'FLAE.method': ('am', ['symbolic', 'eig', 'newton'], lambda v: ((lambda A, a, m: A.filters.FLAE(acc=a, mag=m, method=v).Q),) * 2),
+    }
+    return T
+
+
+def _spellings(v):
+    out = []
+    for w in (v.upper(), v.lower(), v.capitalize(), v.swapcase()):
+        if w != v and w not in out:
+            out.append(w)
+    return out
+
+
+def o_spelling(inp):
+    """for a spelling `value` of a string option that the scalar path accepts: array route row i == scalar route on row i, and the
+    spelling means the same as the canonical one on the scalar route"""
+    from vlib.core import call_outcome
+    name, value, canon, rows = inp['option'], inp['value'], inp['canonical'], inp['rows']
+    dom, _, fac = _spell_twins()[name]
+    groups = {'dcm': [M], 'quat': [Q], 'am': [AC, MG]}[dom]
+    s, b = fac(value)
+    p = Pair(f'{name}={value}', groups, s, b, kind='copy', trace=False, domain=dom, tol=(4096, 1e-9))
+    p.rng = name.startswith('OLEQ')
+    so = [call_outcome(impl_single, p, r) for r in rows]
+    if all(o[0] == 'raise' for o in so):
+        return None                                     # the scalar path does not accept this spelling: nothing to compare
+    sc, _ = fac(canon)
+    pc = Pair(f'{name}={canon}', groups, sc, sc, trace=False, domain=dom, tol=(4096, 1e-9))
+    pc.rng = p.rng
+    bo = call_outcome(impl_batch, p, rows)
+    for i, r in enumerate(rows):
+        if so[i][0] == 'raise':
+            continue
+        if bo[0] == 'raise':
+            return {'tag': f'{name}/spelling-{_kindof(value)}-array-raises', 'observed': f'array route raises {bo[1]}: {bo[2][:80]}',
+                    'expected': _flat(so[i][1]), 'note': f'{name}={value!r} is accepted by the scalar route'}
+        k = _cmp(p, bo[1][i], so[i][1])
+        if k is not None:
+            return {'tag': f'{name}/spelling-{_kindof(value)}-{k}', 'observed': _flat(bo[1][i]), 'expected': _flat(so[i][1]),
+                    'note': f'{name}={value!r}, row {i}'}
+        co = call_outcome(impl_single, pc, r)
+        if co[0] == 'val' and _cmp(p, so[i][1], co[1]) is not None:
+            return {'tag': f'{name}/spelling-{_kindof(value)}-scalar-meaning-differs', 'observed': _flat(so[i][1]), 'expected': _flat(co[1]),
+                    'note': f'scalar route: {name}={value!r} vs {canon!r}'}
+    return None
+
+
+def _kindof(v):
+    return 'upper' if v.isupper() else 'lower' if v.islower() else 'mixed'
+
+
+ORACLES = {'twin': o_twin, 'options': o_options, 'spelling': o_spelling}
 
 
 def _call(f, inp):
     from vlib.core import call_outcome
     r = call_outcome(f, inp)
     if r[0] == 'raise':
-        return {'tag': f"{inp.get('pair', inp.get('kind'))}/oracle-raises-{r[1]}", 'observed': list(r[1:])}
+        return {'tag': f"{inp.get('pair', inp.get('kind', inp.get('option')))}/oracle-raises-{r[1]}", 'observed': list(r[1:])}
     return r[1]
 
 
 def search(ctx, scale):
-    n = 14 * scale
+    n = 11 * scale
     for p in PAIRS:
         rows = rows_for(p, ctx.rng, max(n, 9))
         regs = [r for r, _ in rows]
@@ -690,4 +848,17 @@ def search(ctx, scale):
             for o in opts:
                 inp = {'kind': kind, 'option': o, 'acc': list(map(float, r[:3])), 'mag': list(map(float, r[3:]))}
                 ctx.check('options', inp, _call(o_options, inp), nontrivial_key=(kind, o, tuple(np.round(r, 6))))
+    # option value spellings
+    for name, (dom, canon, _) in _spell_twins().items():
+        gen = {'dcm': _dcm_rows, 'quat': _quat_rows, 'am': _am_rows}[dom](ctx.rng, 40)
+        rows = [list(map(float, gen[k][1])) for k in (len(gen) - 1, len(gen) - 2, 3)]
+        for v in canon:
+            for w in _spellings(v):
+                inp = {'option': name, 'value': w, 'canonical': v, 'rows': rows}
+                ctx.check('spelling', inp, _call(o_spelling, inp), nontrivial_key=(name, w))
+    # coverage of the `.ndim` switches by the twin table (evidence only)
+    cov = twin_coverage()
+    ctx.corr_stats['twin_coverage'] = cov
+    ctx.say(f"[coverage] {cov['functions_with_ndim_switch']} functions branch on .ndim: {cov['covered']} covered by twins, "
+            f"{len(cov['exempt'])} exempt; twin not covered: {cov['NOT_COVERED'] or 'none'}")
     ctx.samples.append({'kind': 'search', 'oracle': 'twin', 'input': {'pair': 'tilt_quaternion', 'rows': [am[-1][1], am[-2][1]]}})
